@@ -10,6 +10,7 @@ import QV.Model.Measure
 import QV.Model.CircuitAdd
 import QV.Model.Repeated
 import QV.Model.MeasureProbs
+import QV.Model.Bitflip
 open QV
 
 structure Rd where
@@ -175,6 +176,20 @@ def nextQOp : P (Rep.QOp (MGate GI)) := do
     let ts ← nextNatList
     let c ← nextNat
     pure (.meas ts (c == 1))
+  | "P" =>
+    -- gate with symbolic parameters: nuses (m j)* ntab gate*  (table indexed by the symbol values, big-endian)
+    let nu ← nextNat
+    let mut uses : List (Nat × Nat) := []
+    for _ in [0:nu] do
+      let m ← nextNat
+      let j ← nextNat
+      uses := uses ++ [(m, j)]
+    let nt ← nextNat
+    let mut tab : Array (MGate GI) := #[]
+    for _ in [0:nt] do
+      tab := tab.push (← nextGate)
+    let dflt : MGate GI := { mat := fun _ _ => 0, targets := [], controls := [] }
+    pure (.pgate (fun bits => tab.getD (samplesToDecimal bits) dflt) uses)
   | _ =>
     let m ← nextNat
     let j ← nextNat
@@ -229,6 +244,61 @@ def showPAns (c : RCfg) (op : POp) : PAns → String
     match op with
     | .acc rop => showOutFor c rop out
     | _ => "?"
+
+/-! ### bit-flip readout noise -/
+
+/-- probabilities / uniform numbers as numerators over 64 -/
+structure Fx where
+  n : Int
+deriving DecidableEq
+
+instance : Zero Fx := ⟨⟨0⟩⟩
+instance : One Fx := ⟨⟨64⟩⟩
+instance : Add Fx := ⟨fun a b => ⟨a.n + b.n⟩⟩
+instance : LT Fx := ⟨fun a b => a.n < b.n⟩
+instance : DecidableLT Fx := fun a b => inferInstanceAs (Decidable (a.n < b.n))
+
+def nextFx : P Fx := do
+  pure ⟨← nextInt⟩
+
+def nextForm : P (BF.PForm Fx) := do
+  let t ← nextTok
+  match t with
+  | "N" => pure .none
+  | "S" => pure (.scalar (← nextFx))
+  | "L" =>
+    let k ← nextNat
+    let mut out : List Fx := []
+    for _ in [0:k] do
+      out := out ++ [← nextFx]
+    pure (.list out)
+  | "D" =>
+    let k ← nextNat
+    let mut out : List (Nat × Fx) := []
+    for _ in [0:k] do
+      let q ← nextNat
+      let v ← nextFx
+      out := out ++ [(q, v)]
+    pure (.dict out)
+  | _ => pure .other
+
+def showErr : BF.Err → String
+  | .value => "ValueError"
+  | .key => "KeyError"
+  | .type => "TypeError"
+  | .notImplemented => "NotImplementedError"
+
+def showFMap (m : BF.FMap Fx) : String := " ".intercalate (m.map fun kv => s!"{kv.1}:{kv.2.n}")
+def showFxs (l : List Fx) : String := " ".intercalate (l.map fun x => toString x.n)
+
+def nextFxRows (rows k : Nat) : P (List (List Fx)) := do
+  let mut out : List (List Fx) := []
+  for _ in [0:rows] do
+    let mut r : List Fx := []
+    for _ in [0:k] do
+      r := r ++ [← nextFx]
+    out := out ++ [r]
+  pure out
 
 /-- materialise after every step so closures stay shallow -/
 def stepSV (n : Nat) (st : List (List Nat) × Array GI) (op : COp GI) : List (List Nat) × Array GI :=
@@ -306,10 +376,78 @@ def handle : P String := do
     for _ in [0:nops] do
       ops := (← nextROp) :: ops
     let opl := ops.reverse
-    let o : Oracle := { shots := shots, batches := bs.reverse, perm := perm }
-    let s0 : RState := if init == 1 then RState.withSamples c shots else {}
+    let o : Oracle := { shots := if init == 2 then [] else shots, batches := bs.reverse, perm := perm }
+    let s0 : RState := if init == 1 then RState.withSamples c shots
+      else if init == 2 then RState.withFreq (fun v => shots.getD v 0) else {}
     let outs := rrun c o s0 opl
     pure (" | ".intercalate ((opl.zip outs).map fun (op, out) => showOutFor c op out))
+  | "BFMAP" =>
+    let ts ← nextNatList
+    let col ← nextNat
+    let f0 ← nextForm
+    let f1 ← nextForm
+    match BF.mkMaps { targets := ts, collapse := col == 1, p0 := f0, p1 := f1 } with
+    | .error e => pure ("ERR " ++ showErr e)
+    | .ok (m0, m1) =>
+      let g : BF.MG Fx := { targets := ts, m0 := m0, m1 := m1 }
+      pure (showFMap m0 ++ " | " ++ showFMap m1 ++ " | " ++ (if BF.hasNoise g then "1" else "0"))
+  | "BFVIEWS" =>
+    -- nregs (targets form0 form1)* init shots nb batches perm nu (u rows of k) nops ops
+    let nregs ← nextNat
+    let mut regs : Array (List Nat) := #[]
+    let mut gs : List (BF.MG Fx) := []
+    let mut err : Option String := none
+    for i in [0:nregs] do
+      let ts ← nextNatList
+      let f0 ← nextForm
+      let f1 ← nextForm
+      regs := regs.push ts
+      match BF.mkMaps { targets := ts, p0 := f0, p1 := f1 } with
+      | .error e => if err.isNone then err := some s!"ERR {i} {showErr e}"
+      | .ok (m0, m1) => gs := gs ++ [{ targets := ts, m0 := m0, m1 := m1 }]
+    let c : RCfg := { nregs := nregs, reg := fun i => regs.getD i [] }
+    let init ← nextNat
+    let shots ← nextNatList
+    let nb ← nextNat
+    let mut bs := []
+    for _ in [0:nb] do
+      bs := (← nextNatList) :: bs
+    let perm ← nextNatList
+    let nu ← nextNat
+    let u ← nextFxRows nu c.k
+    let nops ← nextNat
+    let mut ops := []
+    for _ in [0:nops] do
+      ops := (← nextROp) :: ops
+    let opl := ops.reverse
+    match err with
+    | some e => pure e
+    | none =>
+      let G := BF.globalGate gs
+      let nz := BF.noiseOf G
+      let o : Oracle := { shots := if init == 2 then [] else shots, batches := bs.reverse, perm := perm }
+      let s0 : RState := if init == 1 then RState.withSamples c shots
+        else if init == 2 then RState.withFreq (fun v => shots.getD v 0) else {}
+      let outs := BF.nrun c nz o u s0 opl
+      pure (showNats G.targets ++ " ; " ++ showFxs nz.p0 ++ " ; " ++ showFxs nz.p1 ++ " ; "
+        ++ (if nz.on then "1" else "0") ++ " | "
+        ++ " | ".intercalate ((opl.zip outs).map fun (op, out) => showOutFor c op out))
+  | "BFAPPLY" =>
+    let glob ← nextNatList
+    let f0 ← nextForm
+    let f1 ← nextForm
+    let nrows ← nextNat
+    let mut rows : List (List Nat) := []
+    for _ in [0:nrows] do
+      rows := rows ++ [← nextNats glob.length]
+    let u ← nextFxRows nrows glob.length
+    match BF.applyBitflipsAPI glob f0 f1 u rows with
+    | .error e => pure ("ERR " ++ showErr e)
+    | .ok t => pure (showNats t.flatten)
+  | "BINKEY" =>
+    let k ← nextNat
+    let v ← nextNat
+    pure (String.join ((BF.binKey k v).map toString) ++ " " ++ toString (samplesToDecimal (BF.binKey k v)))
   | "COLL" =>
     let n ← nextNat
     let qs ← nextNatList
